@@ -45,7 +45,7 @@ def run(lines, out, args):
             elif f[0] == "set":
                 nodes[int(f[1])].__bases__ = tuple(nodes[b] for b in a)
                 got = "ok"
-            elif f[0] == "q":
+            elif f[0] in ("q", "qs"):
                 x = nodes[int(f[1])]
                 inv = {id(v): k for k, v in nodes.items()}
                 # equal-keyed interfaces are one dictionary key by design (C12): for such twins the question is asked by
@@ -63,6 +63,9 @@ def run(lines, out, args):
                 # extends(strict) must be isOrExtends minus self; non-strict must equal isOrExtends
                 if ext != [k for k in imp if nodes[k] is not x] or ext2 != imp:
                     imp = imp + ["extends-mismatch"]
+                if f[0] == "qs":
+                    out.write("sro %s | iro %s | imp %s\n" % (ids(x.__sro__), ids(x.__iro__), " ".join(map(str, imp))))
+                    continue
                 try:
                     st = ids(ro.ro(x, strict=True))
                 except ro.InconsistentResolutionOrderError:
